@@ -638,39 +638,42 @@ func (ex *Exec) appendBuiltin(fr *Frame, st *State, c *ssa.CallCommon, args []Va
 		ex.unsup("append on non-slice")
 		return ex.freshVal(resT, "append")
 	}
-	es, eok := scalarSort(slT.Elem())
+	leaves, eok := elemLeaves(slT.Elem())
 	if !eok {
 		ex.unsup("append to slice of " + slT.Elem().String())
 		ex.havocHeap(st, []string{})
 		return ex.freshVal(resT, "append")
 	}
+	var allKeys []string
+	for _, l := range leaves {
+		allKeys = append(allKeys, elemLeafKey(slT.Elem(), l))
+	}
 	s := ex.term(args[0], SSlice)
 	arr, off, ln, cp := app(SInt, "sl.arr", s), app(SInt, "sl.off", s), app(SInt, "sl.len", s), app(SInt, "sl.cap", s)
-	key := elemKey(slT.Elem())
-	EA := ArraySort(SInt, ArraySort(SInt, es))
-	E := ex.heapRead(st, key, EA)
 
 	var addLen Term
-	var concrete []Term
+	var concrete []Val
+	isConcrete := false
 	var src Term
 	switch a := args[1].(type) {
 	case CellSlice:
 		cell, _ := st.cells[a.C].(ArrV)
 		for i := a.Lo; i < a.Hi && i < len(cell.Elems); i++ {
-			concrete = append(concrete, ex.term(cell.Elems[i], es))
+			concrete = append(concrete, cell.Elems[i])
 		}
+		isConcrete = true
 		addLen = IntLit(int64(len(concrete)))
 	case SV:
 		if a.T.Sort == SStr {
 			ex.unsup("append(bytes, string...)")
-			ex.havocHeap(st, []string{key})
+			ex.havocHeap(st, allKeys)
 			return ex.freshVal(resT, "append")
 		}
 		src = a.T
 		addLen = app(SInt, "sl.len", src)
 	default:
 		ex.unsup(fmt.Sprintf("append of %T", args[1]))
-		ex.havocHeap(st, []string{key})
+		ex.havocHeap(st, allKeys)
 		return ex.freshVal(resT, "append")
 	}
 	newLen := ex.sc.Name("app.len", app(SInt, "+", ln, addLen))
@@ -684,37 +687,47 @@ func (ex *Exec) appendBuiltin(fr *Frame, st *State, c *ssa.CallCommon, args []Va
 	rcap := Ite(fits, cp, ncap)
 	// appending nothing to a nil slice stays nil
 	res := ex.sc.Name("app.res", app(SSlice, "mk-slice", rarr, roff, newLen, rcap))
-	if concrete == nil {
+	if !isConcrete {
 		res = ex.sc.Name("app.res", Ite(And(Eq(arr, IntLit(0)), Eq(addLen, IntLit(0))), s, res))
 	}
-	// new element store
-	E2 := ex.sc.Fresh("E.app", EA)
 	i := "i!q"
-	iT := T(SInt, i)
-	oldRow := Select(E, arr)
-	newRow := Select(E2, rarr)
-	// other backing arrays unchanged
-	ex.sc.Assert(T(SBool, fmt.Sprintf("(forall ((a!q Int)) (! (=> (not (= a!q %s)) (= (select %s a!q) (select %s a!q))) :pattern ((select %s a!q))))", rarr.S, E2.S, E.S, E2.S)))
-	// prefix copied / kept
-	ex.sc.Assert(T(SBool, fmt.Sprintf("(forall ((%s Int)) (! (=> (and (<= 0 %s) (< %s %s)) (= (select %s (+ %s %s)) (select %s (+ %s %s)))) :pattern ((select %s (+ %s %s)))))",
-		i, i, i, ln.S, newRow.S, roff.S, i, oldRow.S, off.S, i, newRow.S, roff.S, i)))
-	// in place: everything outside [off+len, off+newLen) unchanged
 	lo := app(SInt, "+", off, ln)
 	hi := app(SInt, "+", off, newLen)
-	ex.sc.Assert(Implies(fits, T(SBool, fmt.Sprintf("(forall ((%s Int)) (! (=> (or (< %s %s) (>= %s %s)) (= (select %s %s) (select %s %s))) :pattern ((select %s %s))))",
-		i, i, lo.S, i, hi.S, newRow.S, i, oldRow.S, i, newRow.S, i))))
-	_ = iT
-	if concrete != nil {
-		for k, e := range concrete {
-			ex.sc.Assert(Eq(Select(newRow, app(SInt, "+", roff, app(SInt, "+", ln, IntLit(int64(k))))), e))
+	for _, l := range leaves {
+		key := elemLeafKey(slT.Elem(), l)
+		EA := ArraySort(SInt, ArraySort(SInt, l.sort))
+		E := ex.heapRead(st, key, EA)
+		// new element store
+		E2 := ex.sc.Fresh("E.app", EA)
+		oldRow := Select(E, arr)
+		newRow := Select(E2, rarr)
+		// other backing arrays unchanged
+		ex.sc.Assert(T(SBool, fmt.Sprintf("(forall ((a!q Int)) (! (=> (not (= a!q %s)) (= (select %s a!q) (select %s a!q))) :pattern ((select %s a!q))))", rarr.S, E2.S, E.S, E2.S)))
+		// prefix copied / kept
+		ex.sc.Assert(T(SBool, fmt.Sprintf("(forall ((%s Int)) (! (=> (and (<= 0 %s) (< %s %s)) (= (select %s (+ %s %s)) (select %s (+ %s %s)))) :pattern ((select %s (+ %s %s)))))",
+			i, i, i, ln.S, newRow.S, roff.S, i, oldRow.S, off.S, i, newRow.S, roff.S, i)))
+		// in place: everything outside [off+len, off+newLen) unchanged
+		ex.sc.Assert(Implies(fits, T(SBool, fmt.Sprintf("(forall ((%s Int)) (! (=> (or (< %s %s) (>= %s %s)) (= (select %s %s) (select %s %s))) :pattern ((select %s %s))))",
+			i, i, lo.S, i, hi.S, newRow.S, i, oldRow.S, i, newRow.S, i))))
+		if isConcrete {
+			for k, e := range concrete {
+				lv := leafOf(e, l.path)
+				var et Term
+				if lv == nil {
+					et = ex.sc.Fresh("app.elem", l.sort)
+				} else {
+					et = ex.term(lv, l.sort)
+				}
+				ex.sc.Assert(Eq(Select(newRow, app(SInt, "+", roff, app(SInt, "+", ln, IntLit(int64(k))))), et))
+			}
+		} else {
+			srow := Select(E, app(SInt, "sl.arr", src))
+			soff := app(SInt, "sl.off", src)
+			ex.sc.Assert(T(SBool, fmt.Sprintf("(forall ((%s Int)) (! (=> (and (<= 0 %s) (< %s %s)) (= (select %s (+ %s (+ %s %s))) (select %s (+ %s %s)))) :pattern ((select %s (+ %s (+ %s %s))))))",
+				i, i, i, addLen.S, newRow.S, roff.S, ln.S, i, srow.S, soff.S, i, newRow.S, roff.S, ln.S, i)))
 		}
-	} else {
-		srow := Select(E, app(SInt, "sl.arr", src))
-		soff := app(SInt, "sl.off", src)
-		ex.sc.Assert(T(SBool, fmt.Sprintf("(forall ((%s Int)) (! (=> (and (<= 0 %s) (< %s %s)) (= (select %s (+ %s (+ %s %s))) (select %s (+ %s %s)))) :pattern ((select %s (+ %s (+ %s %s))))))",
-			i, i, i, addLen.S, newRow.S, roff.S, ln.S, i, srow.S, soff.S, i, newRow.S, roff.S, ln.S, i)))
+		st.heap[key] = E2
 	}
-	st.heap[key] = E2
 	return SV{res}
 }
 
